@@ -77,6 +77,23 @@ func (c *monC18) After(m *Machine, s *Step) *Violation {
 		!(op.K == "logout" && r.Fired == "Load") {
 		return violation("C18", sig("backend-error-swallowed"), "%s request: backend call %d (%s) failed inside the module handler, yet the request ended without an error outcome (status %d, location %q)", op.K, op.FA, r.Fired, r.Status, r.Location)
 	}
+	// (0b) a request that ended in an error never lifts a lock or confirms an account: the credentials
+	// those states were refusing would be acceptable again
+	if r.Fired != "" && (r.Rec.HandlerErr != nil || r.Status >= 500) {
+		for pid, pre := range s.Pre.Users {
+			po, ok := s.Post.Users[pid]
+			if !ok {
+				continue
+			}
+			if pre.Locked.After(r.T1.UTC()) && !po.Locked.After(r.T1.UTC()) {
+				return violation("C18", sig("failed-request-lifted-lock"), "%s request failed (backend call %d, %s) yet %q, locked until %v before it, is no longer locked (now until %v, attempts %d -> %d)", op.K, op.FA, r.Fired, pid, pre.Locked, po.Locked, pre.AttemptCount, po.AttemptCount)
+			}
+			// (a confirm request whose token was good and saved may still fail afterwards, on its way out)
+			if !pre.Confirmed && po.Confirmed && op.K != "confirm" {
+				return violation("C18", sig("failed-request-confirmed-account"), "%s request failed (backend call %d, %s) yet %q is confirmed now", op.K, op.FA, r.Fired, pid)
+			}
+		}
+	}
 	before, after := r.UIDBefore(), r.UID()
 	loggedIn := after != "" && after != before
 	post := s.Post
@@ -345,6 +362,8 @@ func c18Scenarios() []c18Scenario {
 			After: []Op{{K: "newsess"}, {K: "recend", A: 0, Src: "rectok", SA: 0, S: "Passw0rd!S"}, {K: "login", A: 0, Src: "pwold", SA: 0}}},
 		{Name: "recover-end-remembered", Setup: []Op{{K: "login", B: 1, A: 0, Src: "pw", SA: 0, F: true}, {K: "recstart", A: 0}}, Target: Op{K: "recend", A: 0, Src: "rectok", SA: 0, S: "Passw0rd!R"},
 			After: []Op{{K: "newsess", B: 1}, {K: "visit", B: 1, S: "/p/none"}}},
+		{Name: "recover-end-locked", Setup: []Op{{K: "lock", A: 0}, {K: "recstart", A: 0}}, Target: Op{K: "recend", A: 0, Src: "rectok", SA: 0, S: "Passw0rd!R"},
+			After: []Op{{K: "newsess"}, {K: "login", A: 0, Src: "pw", SA: 0}}},
 		{Name: "recover-end-2fa-account", Setup: []Op{{K: "recstart", A: 1}}, Target: Op{K: "recend", A: 1, Src: "rectok", SA: 1, S: "Passw0rd!R"}},
 		{Name: "recover-end-invalid", Setup: []Op{{K: "recstart", A: 0}}, Target: Op{K: "recend", A: 0, Src: "rectok", SA: 0, Mut: "flip", MA: 300, S: "Passw0rd!R"}},
 		{Name: "logout", Setup: []Op{login0}, Target: Op{K: "logout"}},
@@ -501,7 +520,7 @@ func lastCalls(m *Machine) []string { return append([]string(nil), m.lastCalls..
 
 var profC18 = profile{
 	must: []string{"auth"}, may: []string{"confirm", "lock", "logout", "oauth2", "otp", "recover", "register", "remember"},
-	setups: []string{"totp", "sms", "recovery", "expire"}, kinds: append(append([]wk{}, worldKinds...), wk{"snip:rec2fa", 4}, wk{"snip:mangle", 2}), minOps: 14, maxOps: 34,
+	setups: []string{"totp", "sms", "recovery", "expire"}, kinds: append(append([]wk{}, worldKinds...), wk{"snip:rec2fa", 4}, wk{"snip:mangle", 2}, wk{"snip:reclocked", 4}), minOps: 14, maxOps: 34,
 	accts: [2]int{2, 3}, browsers: [2]int{1, 2}, middlewares: []string{"", "remember", "remember", "expire"},
 	tweak:      func(t *rapid.T, c *harness.Config) { c.LockAfter = rapid.IntRange(3, 6).Draw(t, "lockafter18") },
 	jsonMangle: 4,
